@@ -60,7 +60,7 @@ CFG_STUB = ['PIXMAN_DISABLE environment variable (set by the simulator before th
 
 PROPS['C02'] = {
     'level': 'exploration',
-    'passes': [{'variant': 'opt', 'binary': 'cfg', 'runs': [24000, 800000], 'deadline_s': [150, 2400]}],
+    'passes': [{'variant': 'opt', 'binary': 'cfg', 'runs': [36000, 800000], 'deadline_s': [150, 2400]}],
     'rule': ("one evaluation = one seeded scene (2 destinations, 3-5 sources/masks with transforms, filters, repeats, clips, alpha maps) and 4-10 drawing "
              "requests (composite32 over all 53 operators weighted to those with fast paths, fill_boxes/rectangles, fill, blt, trapezoids, triangles, glyph runs; flavours aimed at the "
              "scaled nearest/bilinear fast paths, solid colours through a mask, the pixbuf idiom of two images of different formats over the same pixels, and - a quarter of the runs - a walk of the library's own fast-path tables: one entry of "
